@@ -63,7 +63,7 @@ def run(tier, seed, replay=None):
         'theories/Common/Int32.v rt_binop as the meaning of the WebAssembly instructions',
         'engines: node 20 running the type-erased emitted TypeScript (engines/ts_erase_lib.js), headless Chrome 147 for WebAssembly; '
         'the reference interpreter harness/src/srcsem.rs only decides which runs are excluded (overflow, division by zero)',
-        'not covered by a theorem: the runtime library (Str/Vec builtins) and the rest of instruction selection - compared by execution',
+        'runtime library (Str/Vec builtins): hand models of both implementations with theorems (theories/C04rt), text-hash staleness guard and differential execution on every run (checks/c04_rt.py); the rest of instruction selection is compared by execution only',
     ]
     try:
         generate()
@@ -71,6 +71,9 @@ def run(tier, seed, replay=None):
     except Exception as e:       # noqa
         ck.obligation('operator tables regenerated from the real printers', False, str(e)[:300])
     check_props(ck, 'theories/C04/Props.v', extra_deps=['theories/Common', 'generated'])
+    # the runtime libraries of both back ends: models, theorems, text-hash staleness guard, differential run
+    from checks.c04_rt import rt
+    rt(ck, tier, seed)
 
     if replay:
         rp = json.load(open(replay))
